@@ -13,6 +13,7 @@ import (
 	"net"
 	"net/http"
 	"net/http/httptest"
+	"strings"
 	"sync"
 	"time"
 
@@ -277,7 +278,33 @@ type stampWriter struct {
 	buf    bytes.Buffer
 	stamps []stamp
 	t0     time.Time
+	// the trailer names announced when the header went out (first write): as with net/http, only those are delivered
+	announced map[string]bool
 }
+
+func (w *stampWriter) snapshot() {
+	if w.announced != nil {
+		return
+	}
+	w.announced = map[string]bool{}
+	for _, v := range w.hdr.Values("Trailer") {
+		for _, n := range strings.Split(v, ",") {
+			w.announced[http.CanonicalHeaderKey(strings.TrimSpace(n))] = true
+		}
+	}
+}
+
+// trailer: the value of a trailer as the client gets it
+func (w *stampWriter) trailer(name string) (string, bool) {
+	w.mu.Lock()
+	defer w.mu.Unlock()
+	w.snapshot()
+	if !w.announced[http.CanonicalHeaderKey(name)] {
+		return "", false
+	}
+	return w.hdr.Get(name), true
+}
+
 type stamp struct {
 	At    time.Duration
 	Total int
@@ -292,6 +319,7 @@ func (w *stampWriter) Write(p []byte) (int, error) {
 	if w.t0.IsZero() {
 		w.t0 = time.Now()
 	}
+	w.snapshot()
 	w.buf.Write(p)
 	w.stamps = append(w.stamps, stamp{time.Since(w.t0), w.buf.Len()})
 	return len(p), nil
@@ -307,7 +335,8 @@ type CopyCase struct {
 	// StallAt >= 0: the function response comes over a connection; the runtime sends StallAt bytes and then
 	// nothing more, without closing (the copy is blocked reading until the reset closes the connection)
 	StallAt int    `json:"stallAt"`
-	Class   string `json:"class"` // expected End-Of-Response
+	FnMode  string `json:"fnMode"` // response mode declared by the function ("" | "streaming")
+	Class   string `json:"class"`  // expected End-Of-Response
 	Fwd     int    `json:"forwarded"`
 	Rate    int64  `json:"rate"`
 	Burst   int64  `json:"burst"`
@@ -334,6 +363,16 @@ func RunCopy(cases []CopyCase) *CopyReport {
 		}
 		data := stack.GenBody(c.Size, ci+1)
 		w := &stampWriter{hdr: http.Header{}}
+		// what ReceiveDirectInvoke announced when the request came in
+		w.hdr.Set("Trailer", directinvoke.EndOfResponseTrailer)
+		if c.Mode == "Streaming" {
+			w.hdr.Add("Trailer", directinvoke.FunctionErrorTypeTrailer)
+			w.hdr.Add("Trailer", directinvoke.FunctionErrorBodyTrailer)
+		}
+		addl := map[string]string{}
+		if c.FnMode != "" {
+			addl[directinvoke.FunctionResponseModeHeader] = c.FnMode
+		}
 		interrupted := make(chan *interop.Reset)
 		sent := make(chan *interop.InvokeResponseMetrics, 1)
 		var src io.Reader = &chunkReader{data: data, chunk: c.Chunk, failAt: c.FailAt}
@@ -350,7 +389,7 @@ func RunCopy(cases []CopyCase) *CopyReport {
 		}
 		done := make(chan error, 1)
 		go func() {
-			done <- directinvoke.SendDirectInvokeResponse(map[string]string{}, src, http.Header{}, w, interrupted, sent, creq, true, "inv-1")
+			done <- directinvoke.SendDirectInvokeResponse(addl, src, http.Header{}, w, interrupted, sent, creq, true, "inv-1")
 		}()
 		acked := true
 		if c.Reset {
@@ -390,9 +429,12 @@ func RunCopy(cases []CopyCase) *CopyReport {
 		got := append([]byte{}, w.buf.Bytes()...)
 		stamps := append([]stamp{}, w.stamps...)
 		w.mu.Unlock()
-		class := w.hdr.Get("End-Of-Response")
+		class, announced := w.trailer("End-Of-Response")
 		what := ""
 		switch {
+		case !announced:
+			what = fmt.Sprintf("the End-Of-Response trailer is set (%q) but was not announced when the header went out (Trailer: %v): it is not delivered",
+				w.hdr.Get("End-Of-Response"), w.hdr.Values("Trailer"))
 		case class != c.Class:
 			what = fmt.Sprintf("End-Of-Response %q, specification says %q", class, c.Class)
 		case stalled && c.Reset && len(got) != c.Fwd:
